@@ -166,7 +166,7 @@ def restore(env):
 
 
 # ----------------------------------------------------------------------------------------- executable reading of the documented behaviour
-def expected(kind, outcomes, n_requests, max_functions, abort_at, batch=None, nested_abort=None):
+def expected(kind, outcomes, n_requests, max_functions, abort_at, batch=None, nested_abort=None, nested_none=None):
     """Returns (exit_code_name | 'propagates', [event names], aborted, function_evaluations, results_delivered_flags).
     abort_at: index of the emitted event at which some receiver raises a user abort (None: never)."""
     ev, state = [], {"aborted": False}
@@ -192,6 +192,11 @@ def expected(kind, outcomes, n_requests, max_functions, abort_at, batch=None, ne
             # the nested (inner) optimization run for this request was aborted by the user: the outer step stops before evaluating
             code = "USER_ABORT"
             state["aborted"] = True
+            break
+        if nested_none is not None and k == nested_none:
+            # the nested optimization ended without a result (nothing feasible tracked) and was not aborted: the documented code for
+            # that is NESTED_OPTIMIZER_FAILED ('a nested optimization fails to find an optimal value'); the outer step stops before evaluating
+            code = "NESTED_OPTIMIZER_FAILED"
             break
         if emit("START_EVALUATION"):
             code = "USER_ABORT"
@@ -260,6 +265,11 @@ def cases(tier):
             if na is not None and na >= n:
                 continue
             yield "optimizer/nested/requests=%d/inner-abort-at=%s" % (n, na), {"kind": "optimizer", "n": n, "outcomes": ["ok", "ok"], "mf": None, "nested": True, "nested_abort": na}
+    # ... or ends without a result (its tracker holds nothing: every inner evaluation failed, or it was aborted before the first result)
+    for n in (1, 2):
+        for k in range(n):
+            yield "optimizer/nested/requests=%d/inner-returns-no-result-at=%d" % (n, k), {"kind": "optimizer", "n": n, "outcomes": ["ok", "ok"], "mf": None, "nested": True, "nested_abort": None, "nested_none": k}
+            yield "optimizer/nested/requests=%d/inner-aborted-without-a-result-at=%d" % (n, k), {"kind": "optimizer", "n": n, "outcomes": ["ok", "ok"], "mf": None, "nested": True, "nested_abort": k, "nested_none": k}
     # population methods: batches of 3 vectors per request (the budget may be exceeded by at most one batch)
     for n in (1, 2):
         for mf in (None, 1, 2, 4):
@@ -295,6 +305,8 @@ def run_case(T, case, clauses):
                 self.calls += 1
                 if case.get("nested_abort") is not None and i == case["nested_abort"]:
                     self.aborted = True
+                if case.get("nested_none") is not None and i == case["nested_none"]:
+                    return None
                 return FunctionResults(batch_id=None, metadata={}, evaluations=types.SimpleNamespace(variables=np.asarray(variables)), realizations=None, functions=None)
 
         extra["nested_optimization"] = Inner()
@@ -309,7 +321,7 @@ def run_case(T, case, clauses):
         except (UnboundLocalError, AssertionError, ZeroDivisionError, AttributeError, TypeError) as exc:
             outcome = "internal:" + type(exc).__name__
         names_h1 = [e.event_type.name for n, e in log if n == "handler1"]
-        want_code, want_events, want_aborted, want_nfun, want_delivered = expected(kind, case["outcomes"], case["n"], case["mf"], abort_at, batch, case.get("nested_abort"))
+        want_code, want_events, want_aborted, want_nfun, want_delivered = expected(kind, case["outcomes"], case["n"], case["mf"], abort_at, batch, case.get("nested_abort"), case.get("nested_none"))
         if "exit" in clauses:
             T.prove("C14.step_ends_with_the_documented_exit_code", outcome == want_code, "got %s, expected %s; events %s" % (outcome, want_code, names_h1))
             T.prove("C14.no_internal_exception_escapes", not outcome.startswith("internal") and outcome != "escaped-abort", outcome)
